@@ -28,8 +28,8 @@ ASSUMPTIONS = [
     "for mixed-type sequences only the laws are checked, not a particular inferred dtype",
 ]
 BOUND = {
-    "quick": "sequences of length 0..3 over 23 scalars; explicit dtypes for homogeneous sequences; equal() relation over all pairs of vectors of length <= 2 built from 12 scalars",
-    "thorough": "sequences of length 0..4 over 23 scalars; equal() relation over all pairs of vectors of length <= 2 built from all 23 scalars",
+    "quick": "sequences of length 0..3 over 24 scalars; explicit dtypes for homogeneous sequences; equal() relation over all pairs of vectors of length <= 2 built from 12 scalars",
+    "thorough": "sequences of length 0..4 over 24 scalars; equal() relation over all pairs of vectors of length <= 2 built from all 24 scalars",
 }
 TIME_CAP = {"quick": 240, "thorough": 3000}
 
@@ -66,6 +66,7 @@ SCALARS = {
     "1": 1,
     "big": 2 ** 53 + 1,
     "1.5": 1.5,
+    "complex": 1 + 2j,
     "a": "a",
     "empty": "",
     "date": datetime.date(2020, 2, 29),
@@ -86,7 +87,7 @@ SCALARS = {
 NAMES = list(SCALARS)
 MISSING = {"None", "nan", "npnan"}
 FAMILY = {
-    "True": "bool", "1": "int", "big": "int", "1.5": "float", "a": "str", "empty": "str",
+    "True": "bool", "1": "int", "big": "int", "1.5": "float", "complex": "complex", "a": "str", "empty": "str",
     "date": "date", "datetime": "datetime", "timedelta": "timedelta", "bytes": "bytes",
     "np.int64": "np.int", "np.float64": "np.float", "np.bool": "np.bool", "np.str": "np.str",
     "np.dt64": "np.dt64", "np.NaT": "np.dt64", "np.td64": "np.td64", "dict": "object", "inst": "object", "aloof": "object",
@@ -156,7 +157,8 @@ def expected_homogeneous(fam, has_missing, dtype):
             return ("datetime64", "NaT")
         if fam == "np.td64":
             return ("timedelta64", "NaTd")
-        if fam in ("object", "bytes", "timedelta"):
+        if fam in ("object", "bytes", "timedelta", "complex"):
+            # (NaN is a float, so a complex number next to a missing value is "otherwise": an object vector with None)
             return ("object", "None") if has_missing else (None, None)
         return None
     if dtype is int:
@@ -228,9 +230,12 @@ def replacement_for(v):
     if v.is_string() or v._is_string_fixed():
         return "z"
     if v.is_datetime():
-        return np.datetime64("2000-01-01")
+        # a Python date for date vectors (what a user would naturally write), a NumPy scalar otherwise
+        return datetime.date(2000, 1, 1) if np.datetime_data(v.dtype)[0] == "D" else np.datetime64("2000-01-01")
     if v.is_timedelta():
         return np.timedelta64(3, "D")
+    if v.dtype.kind == "c":
+        return 5 + 0j
     return "R"
 
 
@@ -317,8 +322,13 @@ def laws(v, names, seq, rec, one, homog):
         rn = v.replace_na(r)
         rl = rn.tolist() if not rn.is_object() else list(np.asarray(rn))
         for i in range(n):
+            if str(rn.dtype) != str(v.dtype):
+                rec.violation("replace_na", "dtype-kept", one, f"replace_na({r!r}) turned {v.dtype} into {rn.dtype}")
+                return None
             if fl[i]:
                 got = np.asarray(rn)[i]
+                if isinstance(got, np.datetime64) and isinstance(r, datetime.date):
+                    got = got.astype("datetime64[D]").item()
                 if isinstance(got, np.generic) and not isinstance(got, (np.datetime64, np.timedelta64)):
                     got = got.item()
                 if not (got == r):
